@@ -1,15 +1,16 @@
 SPECIFICATION Spec
 CONSTANTS MaxLen = 2 MaxN = 4 Infinite = FALSE MaxOut = 100
-  Vals = "nat" Stops = FALSE MaxRuns = 1 MaxLead = 0
-  Alphabet <- AlphaC01
-  Must <- NoMust
+  Vals = "nat" Stops = FALSE MaxRuns = 1 MaxLead = 2
+  Alphabet <- AlphaObjT
+  Must <- ObjC01T
   Pairs <- Both
 INVARIANT OpEqDen
 INVARIANT OutIsPrefix
-INVARIANT EmptyIsIdentity
-INVARIANT BadRejectedAtBuild
 INVARIANT Regroup
 INVARIANT NoWorkBeforeDemand
 INVARIANT NoDataInvisible
+INVARIANT LeadUntouched
 INVARIANT SliceIsPySlice
+INVARIANT Buffers
+INVARIANT Emitted
 CHECK_DEADLOCK FALSE
